@@ -78,7 +78,7 @@ public:
           alloc_(rb.alloc_),
           capacity_(rb.capacity_),
           mask_(rb.mask_),
-          data_(alloc_.allocate(capacity_))
+          data_(capacity_ ? alloc_.allocate(capacity_) : nullptr)
     {
         // copy items using existing methods (we cannot just flat copy the array
         // due to item construction).
@@ -101,7 +101,7 @@ public:
             alloc_.deallocate(data_, capacity_);
             alloc_ = rb.alloc_;
             capacity_ = rb.capacity_;
-            data_ = alloc_.allocate(capacity_);
+            data_ = capacity_ ? alloc_.allocate(capacity_) : nullptr;
         }
         // copy over fields
         max_size_ = rb.max_size_;
